@@ -62,7 +62,8 @@ DigitAt(d, c, j) == IF j = 1 THEN c % d[1] ELSE DigitAt(Tail(d), c \div d[1], j 
 MkCtx(cx, c) ==
   LET d == Dims(cx)
       na == Len(cx.args)
-      args == [j \in 1..na |-> ArgDom(cx.args[j])[DigitAt(d, c, j) + 1]]
+      args == IF "raw" \in DOMAIN cx THEN cx.raw         \* application arguments given literally (ABI checks)
+              ELSE [j \in 1..na |-> ArgDom(cx.args[j])[DigitAt(d, c, j) + 1]]
       oc == cx.ocs[DigitAt(d, c, na + 1) + 1]
       appid == cx.appids[DigitAt(d, c, na + 2) + 1]
       gsize == cx.gsizes[DigitAt(d, c, na + 3) + 1]
